@@ -25,7 +25,7 @@ func init() {
 			guardRe("remote key is ed25519", `^true\(p2p/conn\.shareAuthSignature\(.*\)#0\.Key\.\(crypto/ed25519\.PubKey\)#1\)$`),
 			guardRe("remote signature over the challenge verifies under the remote key", `^true\(p2p/conn\.shareAuthSignature\(.*\)#0\.Key\.VerifySignature\(&challenge\[:\], p2p/conn\.shareAuthSignature\(.*\)#0\.Sig\)\)$`),
 		} {
-			c.Check(c.ge().ensures(f, g, 0), fk+" ensures "+g.Name, w.pos(f.Pos()), "a connection is returned only behind this check", "MakeSecretConnection can succeed without: "+g.Name)
+			c.Check(c.ge().ensures(f, g, 2), fk+" ensures "+g.Name, w.pos(f.Pos()), "a connection is returned only behind this check", "MakeSecretConnection can succeed without: "+g.Name)
 		}
 		// remote identity recorded is the key that verified
 		for _, fs := range w.fieldStoresIn(f, "p2p/conn", "SecretConnection", "remPubKey") {
@@ -67,7 +67,7 @@ func init() {
 			gk := funcKey(g)
 			x := w.callsTo(g, "golang.org/x/crypto/curve25519#X25519")
 			c.Check(len(x) == 1, gk+" :: uses X25519 (errors on low-order points)", w.pos(g.Pos()), "curve25519.X25519", "the shared secret is not computed with curve25519.X25519 (ScalarMult silently yields a constant for low-order points)")
-			c.Check(c.ge().ensures(g, guardCallOK("X25519 succeeded", "golang.org/x/crypto/curve25519#X25519"), 0), gk+" ensures the X25519 error is propagated", w.pos(g.Pos()), "success only if X25519 returned no error", "computeDHSecret succeeds although X25519 failed")
+			c.Check(c.ge().ensures(g, guardCallOK("X25519 succeeded", "golang.org/x/crypto/curve25519#X25519"), 2), gk+" ensures the X25519 error is propagated", w.pos(g.Pos()), "success only if X25519 returned no error", "computeDHSecret succeeds although X25519 failed")
 			for _, call := range x {
 				c.Check(w.callStr(call) == "golang.org/x/crypto/curve25519.X25519(locPrivKey[:], remPubKey[:])", gk+" :: local private scalar times remote public point", w.ipos(call), w.callStr(call), w.callStr(call))
 			}
@@ -212,10 +212,10 @@ func init() {
 		}
 		fk := funcKey(f)
 		connID := `p2p\.PubKeyToID\(.*\.RemotePubKey\(\)\)`
-		c.Check(c.ge().ensures(f, guardRe("secret connection established", `^nil\(p2p\.upgradeSecretConn\(.*\)#1\)$`), 0), fk+" ensures the secret connection handshake succeeded", w.pos(f.Pos()), "guarded", "upgrade can succeed without a secret connection")
-		c.Check(c.ge().ensures(f, guardAny("dialled id equals the authenticated id (when dialling)", guardCmp("a", connID, "==", `dialedAddr\.ID`), guardRe("b", `^nil\(dialedAddr\)$`)), 0), fk+" ensures dialled id = connection id", w.pos(f.Pos()), "guarded", "an outbound connection is accepted although the peer authenticated as someone else than dialled")
-		c.Check(c.ge().ensures(f, guardCmp("node info id equals the authenticated id", connID, "==", `.*\.ID\(\)`), 0), fk+" ensures node-info id = connection id", w.pos(f.Pos()), "guarded", "a peer can claim another node id in its node info")
-		c.Check(c.ge().ensures(f, guardRe("node info validated", `^nil\(.*\.Validate\(\)\)$`), 0), fk+" ensures node info Validate() = nil", w.pos(f.Pos()), "guarded", "node info is not validated")
+		c.Check(c.ge().ensures(f, guardRe("secret connection established", `^nil\(p2p\.upgradeSecretConn\(.*\)#1\)$`), 2), fk+" ensures the secret connection handshake succeeded", w.pos(f.Pos()), "guarded", "upgrade can succeed without a secret connection")
+		c.Check(c.ge().ensures(f, guardAny("dialled id equals the authenticated id (when dialling)", guardCmp("a", connID, "==", `dialedAddr\.ID`), guardRe("b", `^nil\(dialedAddr\)$`)), 2), fk+" ensures dialled id = connection id", w.pos(f.Pos()), "guarded", "an outbound connection is accepted although the peer authenticated as someone else than dialled")
+		c.Check(c.ge().ensures(f, guardCmp("node info id equals the authenticated id", connID, "==", `.*\.ID\(\)`), 2), fk+" ensures node-info id = connection id", w.pos(f.Pos()), "guarded", "a peer can claim another node id in its node info")
+		c.Check(c.ge().ensures(f, guardRe("node info validated", `^nil\(.*\.Validate\(\)\)$`), 2), fk+" ensures node info Validate() = nil", w.pos(f.Pos()), "guarded", "node info is not validated")
 	})
 }
 
